@@ -210,7 +210,7 @@ impl Prop for C14 {
         "case = generated well-formed item (interface / parcelable / enum) with 0-6 members; at a random member position a member made of 0-8 random tokens of the vocabulary (no ';', '{', '}', and no ',' in enums) followed by the normal terminator is injected. Kept only when the reference recogniser says the document is malformed and its first non-viable token lies within the injected member's extent (first injected token .. terminator); everything else is discarded and counted. Oracle: a tree is returned; the members lying before / after the extent are exactly the siblings before / after, in order and structurally unchanged (members salvaged from inside the extent are allowed); >= 1 Error; every parse-stage Error range lies within the extent. Non-trivial = non-empty garbage with siblings on both sides; distinct by text.".into()
     }
     fn random_cases(&self, tier: Tier) -> u64 {
-        tier.pick(30_000, 1_000_000)
+        tier.pick(60_000, 1_000_000)
     }
     fn max_bytes(&self) -> usize {
         2000
